@@ -150,6 +150,7 @@ bool ReverseDb::Build(DictSettings* settings,
     return false;
   }
   metadata_->dict_file_checksum = dict_file_checksum;
+  RIME_VERIF_CRASHPOINT("ReverseDb::Build:metadata-fields");
   if (!dict_settings.empty()) {
     if (!CopyString(dict_settings, &metadata_->dict_settings)) {
       LOG(ERROR) << "Error saving dict settings.";
@@ -166,6 +167,7 @@ bool ReverseDb::Build(DictSettings* settings,
   }
   metadata_->index.size = entry_count;
   metadata_->index.at = entries;
+  RIME_VERIF_CRASHPOINT("ReverseDb::Build:index");
 
   // save key trie image
   char* key_trie_image = Allocate<char>(key_trie_image_size);
@@ -176,6 +178,7 @@ bool ReverseDb::Build(DictSettings* settings,
   key_trie_builder.Dump(key_trie_image, key_trie_image_size);
   metadata_->key_trie = key_trie_image;
   metadata_->key_trie_size = key_trie_image_size;
+  RIME_VERIF_CRASHPOINT("ReverseDb::Build:key-trie");
 
   // save value trie image
   char* value_trie_image = Allocate<char>(value_trie_image_size);
@@ -186,10 +189,12 @@ bool ReverseDb::Build(DictSettings* settings,
   value_trie_builder.Dump(value_trie_image, value_trie_image_size);
   metadata_->value_trie = value_trie_image;
   metadata_->value_trie_size = value_trie_image_size;
+  RIME_VERIF_CRASHPOINT("ReverseDb::Build:value-trie");
 
   // at last, complete the metadata
   std::strncpy(metadata_->format, kReverseFormat,
                reverse::Metadata::kFormatMaxLength);
+  RIME_VERIF_CRASHPOINT("ReverseDb::Build:format-tag");
   return true;
 }
 
